@@ -6,6 +6,7 @@ From PowHsm Require Import Model.Cert.
 From PowHsm Require Import Proofs.CertProofs.
 From PowHsm Require Import Gen.Src.
 From PowHsm Require Import Proofs.SrcEquivCert.
+From PowHsm Require Import Proofs.SrcLiftCert.
 Open Scope N_scope.
 
 (* for every signature oracle and every path of any depth: the walk reports Valid exactly when it reaches the last element and every link holds w.r.t. its certifier (the root of trust for the topmost element, the previous element after) *)
@@ -92,5 +93,45 @@ Theorem C06_source_walk_is_model :
          src_HSMCertificate__validate_and_get_values fuel call_method (cert_pv c) root_pv =
          spec_results link_ok value_of tweak_of c (c_targets c) [].
 Proof. exact (@src_validate_v1_ok). Qed.
+
+(* hence: the dictionary the source returns reports a target valid - (True, value, tweak) under its name - exactly when every link on that target's path up to the root of trust verifies *)
+Theorem C06_source_target_reported_valid_iff :
+  forall (link_ok : celem -> certifier -> bool) (value_of tweak_of : celem -> pr pv)
+           (root_pv : pv) (call_method : string -> pv -> list pv -> pr pv) 
+           (c : cert) (fuel : nat) (d : list (str * pv)) (tg : json),
+         oracle_ok link_ok value_of tweak_of root_pv call_method ->
+         c_version c = 1%Z ->
+         str_named c ->
+         targets_resolve link_ok c ->
+         (S (Datatypes.length (c_elems c)) <= fuel)%nat ->
+         src_HSMCertificate__validate_and_get_values fuel call_method (cert_pv c) root_pv =
+         POk (VDict d) ->
+         In tg (c_targets c) ->
+         (exists val tw : pv, vassoc (key_str tg) d = Some (VList [VBool true; val; tw])) <->
+         (exists (p : list celem) (e : celem),
+            target_path c tg = Some p /\
+            tbl_get tg (c_elems c) = Some e /\ links_hold link_ok ByRoot p).
+Proof. exact (@src_v1_target_reported_valid_iff). Qed.
+
+(* and reports it invalid with name n exactly when n names the first element, walking down from the root, whose link fails *)
+Theorem C06_source_target_reported_invalid_iff :
+  forall (link_ok : celem -> certifier -> bool) (value_of tweak_of : celem -> pr pv)
+           (root_pv : pv) (call_method : string -> pv -> list pv -> pr pv) 
+           (c : cert) (fuel : nat) (d : list (str * pv)) (tg n : json),
+         oracle_ok link_ok value_of tweak_of root_pv call_method ->
+         c_version c = 1%Z ->
+         str_named c ->
+         targets_resolve link_ok c ->
+         (S (Datatypes.length (c_elems c)) <= fuel)%nat ->
+         src_HSMCertificate__validate_and_get_values fuel call_method (cert_pv c) root_pv =
+         POk (VDict d) ->
+         In tg (c_targets c) ->
+         is_jstr_b n = true ->
+         vassoc (key_str tg) d = Some (VList [VBool false; of_json n]) <->
+         (exists (p pre : list celem) (x : celem) (post : list celem),
+            target_path c tg = Some p /\
+            p = pre ++ x :: post /\
+            links_hold link_ok ByRoot pre /\ link_ok x (cf_after ByRoot pre) = false /\ n = ce_name x).
+Proof. exact (@src_v1_target_reported_invalid_iff). Qed.
 
 Example C06_nonvacuous : True. Proof. exact I. Qed. (* four-element chains (device -> attestation -> ui/signer) closed by vm_compute in Proofs/CertProofs.v, Module Examples: all valid, first failure named, one target bad while the other stays valid *)
